@@ -2161,8 +2161,23 @@ static int dfs_copy(vnaproperty_t **destination, const vnaproperty_t *source)
  */
 int vnaproperty_copy(vnaproperty_t **destination, const vnaproperty_t *source)
 {
+    vnaproperty_t *copy = NULL;
+
+    /*
+     * Build the copy before replacing the destination: source may be a
+     * part of the tree at destination, or destination a slot within
+     * source.
+     */
+    if (dfs_copy(&copy, source) == -1) {
+	int saved_errno = errno;
+
+	(void)vnaproperty_delete(&copy, ".");
+	errno = saved_errno;
+	return -1;
+    }
     (void)vnaproperty_delete(destination, ".");
-    return dfs_copy(destination, source);
+    *destination = copy;
+    return 0;
 }
 
 
